@@ -8,10 +8,10 @@ import (
 )
 
 func init() {
-	areas["c01"] = func(cfg *config) error { return runStoreArea(cfg, "c01", 60) }
-	areas["c03"] = func(cfg *config) error { return runStoreArea(cfg, "c03", 60) }
-	areas["c05"] = func(cfg *config) error { return runStoreArea(cfg, "c05", 60) }
-	areas["c06"] = func(cfg *config) error { return runStoreArea(cfg, "c06", 60) }
+	areas["c01"] = func(cfg *config) error { return runStoreArea(cfg, "c01", 150) }
+	areas["c03"] = func(cfg *config) error { return runStoreArea(cfg, "c03", 150) }
+	areas["c05"] = func(cfg *config) error { return runStoreArea(cfg, "c05", 150) }
+	areas["c06"] = func(cfg *config) error { return runStoreArea(cfg, "c06", 150) }
 }
 
 func runStoreArea(cfg *config, flavour string, n int) error {
